@@ -100,3 +100,39 @@ func init() {
 		Technique:   "interprocedural ownership / mutator-summary analysis over go/ssa (write-freedom => race-freedom)",
 	})
 }
+
+func init() {
+	defProperty(&Property{
+		ID:    "C01",
+		Rules: []string{"SIG-PAYLOAD", "SIG-WALK", "SIG-GATE", "SIG-PAIR", "CONS-LEN", "KI-FLOW", "PN-STDLIB"},
+		Explanation: "Static decision of the structural clauses of C01. Acceptance of a token is one call (NewVerifier) in each function of package biscuit that reaches it; SIG-WALK proves, on every path to that call (edge cut-sets over the SSA control-flow graph), that (w1) the authority block's link message was verified with the caller's root key parameter, (w2) inside a full-range loop over container.Blocks each element's link was verified with a loop-carried key whose entry value is Authority.NextKey.Key and whose back-edge value is the verified element's NextKey.Key, every way back to the loop header passes the success edge of that Verify, and every early exit reaches only error returns, (w3) the loop completed, (w4) every path from loop completion to NewVerifier passes the success edge of either bytes.Equal(current key, Public(NewKeyFromSeed(Proof.GetNextSecret()))) or Verify(current key, seal(last block), Proof.GetFinalSignature()), where the last block is Authority if len(blocks)==0 else Blocks[len-1] (per phi edge); the authorizer struct is built nowhere else. SIG-PAYLOAD normalises the message of every ed25519.Sign/Verify call (append chains, fresh buffers, the 4-byte little-endian algorithm buffer) to a component list and requires exactly [BLOCK ALG KEY] or [BLOCK ALG KEY SIG] over one and the same signed block, the right signature operand, and - for signers - that the SignedBlock literal stores exactly the signed bytes, key, algorithm and the signature (sibling agreement between signers and verifier). SIG-GATE: the decoder accepts only after the 32/64-byte gates of the authority and of every block. SIG-PAIR: one GenerateKey per signer, public half signed, Seed() stored as the returned token's next secret. CONS-LEN: len(blocks)==len(container.Blocks) for every Biscuit literal (symbolic lengths, inductive on the parent). KI-FLOW: the public entry point verifies with the selected key. Under the trusted unforgeability of ed25519 this gives 'only if' for all byte strings and, by induction over build/append/seal, 'if' for all library-built tokens.",
+		Decides:     "that no path accepts a token without the complete, correctly keyed signature walk and proof check; that signed and verified messages agree and bind block bytes, algorithm and next key of the same block; decoder size gates; key-pair plumbing of signers",
+		NotDecided:  "ed25519 and protobuf themselves; domain separation between link and seal messages (cryptographic argument); the exported NewVerifier, which by upstream design performs no verification and is outside the property's observation point",
+		Technique:   "SSA must-pass-through (edge cut-set / dominance) analysis of the chain walk + message normal forms compared between signers and verifier",
+	})
+	azExpl := "Static decision on the SSA form of the authorizer's Authorize/Query methods. AZ-SCOPE: a taint analysis whose sources are the range element of the loop over the token's non-authority blocks and the per-iteration World.Clone(); every datalog.World method call that receives tainted data has as receiver a Clone() of the authority-level world created inside that same loop iteration; no tainted value is stored into an authorizer field except a proved write-only accumulator. AZ-RESETRULES: v.world.ResetRules() dominates the block loop and no authority-level AddRule follows it. AZ-WORLDSEL: every QueryRule whose query derives from a block's checks runs on that block's clone, every other query (authorizer checks, authority checks, policies, Query()) on the authority-level world, each after a dominating Run of the same world, with the authorizer's symbol table. "
+	defProperty(&Property{
+		ID:          "C02",
+		Rules:       []string{"AZ-SCOPE", "AZ-RESETRULES", "AZ-WORLDSEL", "AZ-PRECEDENCE", "AZ-DISJ", "OWN-CLONE"},
+		Explanation: azExpl + "AZ-PRECEDENCE/AZ-DISJ: block-derived data can therefore flow only into the errs accumulator and error returns; the success/policy return is dominated by len(errs)==0. OWN-CLONE: World.Clone returns a fresh fact-set header and rule slice, so additions to a block world never reach the authority-level world. Non-interference: for every token, appended block and authorizer content, an appended block can only add failure paths.",
+		Decides:     "that no data of an appended block can flow into the authority-level world, the policy verdict or another block's world (information-flow / non-interference on all paths)",
+		NotDecided:  "that the Datalog engine evaluates the parent part identically in both runs (engine exactness, C05/C12); symbol-table interaction beyond interning being injective",
+		Technique:   "intraprocedural taint / information-flow analysis over go/ssa with dominance checks",
+	})
+	defProperty(&Property{
+		ID:          "C03",
+		Rules:       []string{"AZ-SCOPE", "AZ-RESETRULES", "AZ-WORLDSEL", "OWN-CLONE"},
+		Explanation: azExpl + "The rules are per loop iteration, hence hold for every block position; the clone is always taken from the authority-level world, never from a previous block's world. OWN-CLONE: the clone does not share its fact-set header or rule storage with its source.",
+		Decides:     "block-private scoping of facts and rules of non-authority blocks on every path, for all block positions; authorizer queries see the authority-level world only",
+		NotDecided:  "equality of query results (engine exactness); World.Clone shares the facts backing array beyond its length (no holder ever reads beyond its own length; noted, not a violation)",
+		Technique:   "intraprocedural taint / information-flow analysis over go/ssa",
+	})
+	defProperty(&Property{
+		ID:    "C04",
+		Rules: []string{"AZ-DISJ", "AZ-PRECEDENCE", "AZ-POLICY", "AZ-WORLDSEL", "AZ-RESETRULES", "AZ-REINTERN", "LM-ERR"},
+		Explanation: "Static decision of the control skeleton that turns query results into nil / ErrPolicyDenied / ErrNoMatchingPolicy / verification failure. AZ-DISJ: for each of the three check collections (authorizer checks, authority checks, checks of each block) a full-range loop exists, left early only through error returns; per check a bool flag phi is true exactly on edges guarded by len(*QueryRule(q)) != 0 for q ranging over all Queries of that check and false only on exhaustion; a failure is appended to errs exactly under !flag and reaches the errs slice that decides the outcome. AZ-PRECEDENCE: every return that may be nil or a policy verdict is dominated by len(errs)==0, decided after the block loop. AZ-POLICY: the verdict is the loop-carried result of a full-range, in-order loop over the policies; each policy query is guarded by !matched (first match wins); nil is assigned only on edges guarded by 'query satisfied, kind==Allow, not yet matched', ErrPolicyDenied only with kind==Deny; ErrNoMatchingPolicy exactly when !matched. AZ-WORLDSEL/AZ-RESETRULES: scopes. AZ-REINTERN: token content enters a world only via fromDatalogX(token symbols) then convert(authorizer symbols). LM-ERR: Run errors fail the authorization.",
+		Decides:     "the decision procedure's control skeleton for any number and order of checks, queries and policies (properties of loops and branch guards, not of instances)",
+		NotDecided:  "whether each QueryRule result is right (engine, C05); error-producing expressions inside queries (QueryRule discards Apply's error - outside the fragment the property fixes)",
+		Technique:   "SSA phi-leaf / edge-guard analysis of flag and verdict variables, loop-shape (full range, early exit) analysis",
+	})
+}
